@@ -256,6 +256,68 @@ CLAIMED = {
              "method/dot/namespace access and definitions are covered by the oracle only. WellFormedTree exclusions (what the "
              "grammar cannot express) are listed in Props/C33.lean.",
         design="§7 C33"),
+
+    "C02": dict(
+        category="proof",
+        technique="Lean 4 proof of a value-stack discipline invariant over the machine model M4 (all node kinds, all reachable states) + trace correspondence + exhaustive built-in argument sweep through the CLI",
+        text="Proved on the machine model for every program satisfying the decidable predicate okProg (the parser's use flags; no "
+             "break/continue in operand position): the well-formedness invariant WF (pending entries never underflow the value "
+             "stack incl. the running for-loop's index slot, every pending node well-formed, block count, loop context, caller "
+             "frames, every closure value nested anywhere has a well-formed body) holds initially, is preserved by every step, "
+             "and no step from a WF state panics (init_WF, step_preserves_WF, step_no_panic, run_no_panic over all reachable "
+             "states). Beyond the model: every built-in function and method (62 arms, from the regenerated table) is called "
+             "through the CLI with all argument tuples of arity 0..n+1 over a 15-value pool, integer operators over the boundary "
+             "set, nesting-depth probes; crash = exit 101/signal.",
+        note=TB + "Built-in arms, method calls, floats, dict/struct, assert and try are outside the model: for them the sweep and the "
+             "correspondence are the only evidence. okProg is stronger than necessary (it rejects a toplevel loop left by break). "
+             "Known findings: break/continue in operand position corrupts the value stack (upstream TODO); source nested >= 1000 "
+             "levels overflows the native stack.",
+        design="§7 C02"),
+    "C05": dict(
+        category="proof",
+        technique="Lean 4 partial refinement proof (machine M4 vs an independent big-step interpreter M5) + four-way differential: big-step reference / model machine / in-process evaluator / `garden run`",
+        text="An independent fuel-based big-step interpreter (no expression or value stack, never reads a use flag) is the reference. "
+             "Proved so far (machine_refines_bigstep_exprs_partial): for programs whose toplevel expressions are literals, "
+             "variables, parentheses or invalid nodes, whenever the reference yields a value or an error the machine run ends in "
+             "done/error with the same value or error kind and the same output. For the whole core fragment (let/assign, if, "
+             "match, while/for, break/continue/return, functions, closures, user enums) ~1.7k generated programs per quick run "
+             "(type-directed generator, templates, malformed stream) must agree on stdout and outcome between the reference, the "
+             "model machine on the real parser's tree, the in-process evaluator and the `garden run` CLI.",
+        note=TB + "The refinement theorem is PARTIAL: the simulation framework (frame-context statement with break/continue/return/"
+             "error clauses) is in place but only the leaf cases are proved; the remaining node kinds are covered by the "
+             "differential only. Evaluation-order choices of the reference (arguments right-to-left, no short-circuit) are "
+             "documented choices. Known findings: break/continue in operand position.",
+        design="§7 C05"),
+    "C16": dict(
+        category="proof",
+        technique="Lean 4 partial soundness proof (progress+preservation for a big-step semantics with runtime type errors) over a transcription of the checker's rules + check/run correspondence on type-directed programs and mutants",
+        text="Proved: a value of type A is a value of every well-formed supertype (value_subsumption, uses C14); a well-typed value "
+             "always passes the runtime annotation check is_subtype(Type::from_value(v), T) (annotation_check_passes); canonical "
+             "forms; and soundness for the straight-line fragment (literals, variables, parentheses, all binary operators, let "
+             "with and without hints, return, blocks): a program the model checker accepts never ends in a type error, for "
+             "every fuel (check_sound_exprs_partial, check_sound_toplevel_partial). For if/else, loops, calls, assignment, match "
+             "and lists ~1k fully annotated generated programs and single-node mutants per quick run are judged by the real "
+             "`check` and the real `run`: an accepted program must not raise a type-error message; the model checker's verdict "
+             "and the model semantics' outcome class must agree with the real ones.",
+        note=TB + "PARTIAL: the full fragment theorem is not proved. Three genuine checker unsoundness defects were found; two are "
+             "fixed in /repo (toplevel let visible in function bodies; match on a non-enum scrutinee), one is a known finding "
+             "(Any from a checked if/else flowing into match). Generics, untyped closures, structs and namespaces are outside "
+             "the fragment.",
+        design="§7 C16"),
+    "C25": dict(
+        category="proof",
+        technique="Lean 4 proof of a decreasing potential over the machine model M4 with the limits taken from the regenerated tables + sandboxed CLI runs under timeout and address-space limit",
+        text="Proved for every program and every state with a tick limit L: the run reaches a terminal result (done, error incl. "
+             "tick/stack limit, panic, unsupported) within 2(L - ticks) + frames + 1 steps (bounded_run, potential 2(L-ticks)+frames); "
+             "ticks are monotone, the configured limits never change, the call stack never exceeds D+1 frames (frames_bounded); "
+             "both sandboxed entry points set both limits before evaluating, by decide on the regenerated table "
+             "(bounded_run_tables). playground-run and sandboxed-test are run on non-terminating, deeply recursive and "
+             "value-nesting programs under timeout 20 s and a 3 GB address-space limit; tick counts and limit outcomes of the "
+             "real evaluator equal the model's at the real limits and at small random limits.",
+        note=TB + "Heap, native stack and wall-clock cost per tick are outside the model: three known findings (memory exhaustion "
+             "within the tick budget by string doubling; deep value nesting taking >20 s within budget; native stack overflow "
+             "on 3000-level source nesting).",
+        design="§7 C25"),
 }
 
 NOT_YET = {}
